@@ -272,6 +272,21 @@ def extract(prog):
                         sc.append(c)
                 tf.string_cond = sc
                 tf.string_yield = y
+                # which word is tested: peeled of its parentheses on both
+                # sides (as the word handed to the leaf parser is), or not
+                sides = set()
+                for c in sc:
+                    for n in ast.walk(c.expr):
+                        if isinstance(n, ast.Subscript) or (
+                                isinstance(n, ast.Call) and method_call(n)
+                                and method_call(n)[1] in ('startswith',
+                                                          'endswith')):
+                            base = n.value if isinstance(
+                                n, ast.Subscript) else method_call(n)[0]
+                            txt = U(en.expand(base))
+                            sides |= {m for m in ('lstrip', 'rstrip')
+                                      if '.%s(' % m in txt}
+                tf.string_sides = sides
             if is_const(kd, 'check'):
                 v = _deref(en, val)
                 tf.check_value = v
